@@ -51,7 +51,7 @@ func (c *c06Cont) barrier(timeout time.Duration) bool {
 }
 
 func c06Agree(a, p c06State, protocol string) bool {
-	if a.Exists != p.Exists || a.Deleted != p.Deleted || a.Body != p.Body {
+	if a.Exists != p.Exists || a.Deleted != p.Deleted || a.Body != p.Body || a.Atts != p.Atts {
 		return false
 	}
 	if protocol == "v3" && a.RevTree != p.RevTree {
